@@ -416,6 +416,7 @@ func genCase(t *rapid.T) Case {
 	ck, sk := rapid.IntRange(0, 3).Draw(t, "ccomp") > 0, rapid.IntRange(0, 3).Draw(t, "scomp") > 0
 	c := Case{Client: genConfig(t, ck), Server: genConfig(t, sk)}
 	c.Client.HandshakeTimeout = rapid.SampledFrom([]time.Duration{0, 45 * time.Second, time.Hour}).Draw(t, "hstimeout")
+	c.Server.HandshakeTimeout = rapid.SampledFrom([]time.Duration{0, 45 * time.Second, time.Hour}).Draw(t, "hstimeouts")
 	if rapid.IntRange(0, 3).Draw(t, "first") == 0 {
 		c.First = rapid.SliceOfN(rapid.SampledFrom([]int{0, 1, 125, 126, 300, 5000}), 1, 3).Draw(t, "firstsizes")
 	}
